@@ -31,6 +31,7 @@ def run(chk: Check) -> None:
     ix = get_index()
     run_codes_and_unused(chk, ix)
     run_parser_ignores(chk, ix)
+    run_bypass_sites(chk, ix)
     aei = ix.func("mypy.errors.Errors.add_error_info")
     g = CFG(aei.node)
 
@@ -449,3 +450,97 @@ def run_parser_ignores(chk: Check, ix) -> None:
         r8.ok("add_error_info consults ignores only for files in self.ignored_lines (why registration matters)", aei.loc())
     else:
         r8.info("add_error_info no longer guards the ignore logic by `file in self.ignored_lines`", aei.loc(), "registration before reporting may no longer be needed")
+
+
+def _bool_eval(e: ast.expr, val) -> bool:
+    """Evaluate a boolean combination; `val(leaf)` gives the truth value of a non-boolean leaf."""
+    if isinstance(e, ast.BoolOp):
+        vs = [_bool_eval(v, val) for v in e.values]
+        return all(vs) if isinstance(e.op, ast.And) else any(vs)
+    if isinstance(e, ast.UnaryOp) and isinstance(e.op, ast.Not):
+        return not _bool_eval(e.operand, val)
+    return val(e)
+
+
+def _leaves(e: ast.expr) -> list[ast.expr]:
+    if isinstance(e, ast.BoolOp):
+        return [l for v in e.values for l in _leaves(v)]
+    if isinstance(e, ast.UnaryOp) and isinstance(e.op, ast.Not):
+        return _leaves(e.operand)
+    return [e]
+
+
+def run_bypass_sites(chk: Check, ix) -> None:
+    """R13.9: diagnostics that bypass add_error_info are generated only when their own code is not disabled."""
+    import itertools
+    from ..cfg import branch_conditions
+    r9 = chk.rule("R13.9", "the generators of diagnostics that are reported through report_simple_error (which bypasses is_error_code_enabled) are called only under a condition that is false whenever the diagnostic's own code is in disabled_error_codes, whatever the other settings are (evaluated over all truth assignments of the condition's atoms, with enabled and disabled disjoint as R13.6 establishes), and that is true when the code is enabled and not disabled", floor=4)
+    gens: dict[str, str] = {}
+    for f in ix.functions.values():
+        if f.cls is None or f.cls.qualname != "mypy.errors.Errors":
+            continue
+        for c in ast.walk(f.node):
+            if isinstance(c, ast.Call) and call_name(c) == "report_simple_error":
+                for k in c.keywords:
+                    if k.arg == "code" and norm(k.value).startswith("codes."):
+                        gens[f.name] = norm(k.value)
+    if len(gens) < 2:
+        raise AnalysisError(f"generators reporting through report_simple_error: {gens}")
+    n_sites = 0
+    for f in sorted(ix.functions.values(), key=lambda f: f.qualname):
+        if f.module.name.startswith("mypy.test") or (f.cls is not None and f.cls.qualname == "mypy.errors.Errors"):
+            continue
+        calls = [c for c in ast.walk(f.node) if isinstance(c, ast.Call) and isinstance(c.func, ast.Attribute) and c.func.attr in gens]
+        if not calls:
+            continue
+        par = f.module.parents()
+        for c in calls:
+            n_sites += 1
+            code = gens[c.func.attr]
+            st = c
+            while not isinstance(st, ast.stmt):
+                st = par[st]
+            pos, neg = branch_conditions(par, f.node, st, early_exits=True)
+            cond = ast.BoolOp(op=ast.And(), values=list(pos) + [ast.UnaryOp(op=ast.Not(), operand=t) for t in neg]) if (pos or neg) else None
+            key = f"{f.qualname} -> {c.func.attr}: not generated when {code} is disabled"
+            if cond is None:
+                r9.violation(key, f.loc(c), f"the call is unconditional: {code} diagnostics are produced although the code is disabled (report_simple_error does not consult is_error_code_enabled)")
+                continue
+
+            def kind(l: ast.expr) -> str:
+                if isinstance(l, ast.Compare) and len(l.ops) == 1 and isinstance(l.ops[0], (ast.In, ast.NotIn)) and norm(l.left) == code:
+                    side = norm(l.comparators[0])
+                    if side.endswith("disabled_error_codes"):
+                        return "dis" if isinstance(l.ops[0], ast.In) else "notdis"
+                    if side.endswith("enabled_error_codes"):
+                        return "en" if isinstance(l.ops[0], ast.In) else "noten"
+                if isinstance(l, ast.Call) and call_name(l) == "is_error_code_enabled" and l.args and norm(l.args[0]) == code:
+                    return "isen"
+                return "free:" + norm(l)
+            leaves = _leaves(cond)
+            free = sorted({kind(l) for l in leaves if kind(l).startswith("free:")})
+            bad_dis = None
+            live = False
+            for disabled, enabled in ((True, False), (False, True), (False, False)):
+                for bits in itertools.product((False, True), repeat=len(free)):
+                    env = dict(zip(free, bits))
+
+                    def val(l, disabled=disabled, enabled=enabled, env=env):
+                        k = kind(l)
+                        return {"dis": disabled, "notdis": not disabled, "en": enabled, "noten": not enabled, "isen": enabled and not disabled}.get(k, env.get(k, False))
+                    res = _bool_eval(cond, val)
+                    if disabled and res and bad_dis is None:
+                        bad_dis = {k[5:]: v for k, v in env.items()}
+                    if enabled and not disabled and all(bits) and res:
+                        live = True
+            if bad_dis is not None:
+                r9.violation(key, f.loc(c), f"with {code} in disabled_error_codes the call is still made when {bad_dis or 'always'}: the diagnostic (and a non-zero exit status) is produced for a code the user disabled")
+            else:
+                r9.ok(key, f.loc(c), f"guard: {norm(cond)[:140]}")
+            key2 = f"{f.qualname} -> {c.func.attr}: generated when {code} is enabled"
+            if live:
+                r9.ok(key2, f.loc(c))
+            else:
+                r9.violation(key2, f.loc(c), f"the guard `{norm(cond)[:140]}` is false even with {code} explicitly enabled and every other atom true")
+    if n_sites < 2:
+        raise AnalysisError(f"only {n_sites} call sites of {sorted(gens)} found")
